@@ -100,3 +100,39 @@ pub fn sets_with_branching(dim: usize, max: usize, vals: &[usize], cap: usize, r
 pub fn small_covers<T: DSym>(ds: &T, k: usize) -> Vec<PartialDSym> {
     catch(|| covers(ds, k)).unwrap_or_default().into_iter().filter(|c| c.size() > ds.size()).collect()
 }
+
+/// the prism tiling over a 2-D symbol as a 3-D symbol on 3n chambers (the construction of spec/Prism.tla, transcribed;
+/// every trace spec that receives one re-builds it with `Prism(S)` and compares)
+pub fn prism_over(s: &PartialDSym) -> PartialDSym {
+    let n = s.size();
+    let idx = |d: usize, k: usize| 3 * (d - 1) + k;
+    let mut ds = PartialDSet::new(3 * n, 3);
+    let mut put = |i: usize, a: usize, b: usize| { if b >= a { ds.set(i, a, b); } };
+    for d in 1..=n {
+        let (s0, s1, s2) = (s.op(0, d).unwrap(), s.op(1, d).unwrap(), s.op(2, d).unwrap());
+        put(0, idx(d, 1), idx(s0, 1)); put(0, idx(d, 2), idx(s0, 2)); put(0, idx(d, 3), idx(d, 3));
+        put(1, idx(d, 1), idx(s1, 1)); put(1, idx(d, 2), idx(d, 3));
+        put(2, idx(d, 1), idx(d, 2)); put(2, idx(d, 3), idx(s1, 3));
+        put(3, idx(d, 1), idx(d, 1)); put(3, idx(d, 2), idx(s2, 2)); put(3, idx(d, 3), idx(s2, 3));
+    }
+    let ms: Vec<Vec<usize>> = (0..3).map(|i| (1..=3 * n).map(|c| {
+        let (d, k) = ((c - 1) / 3 + 1, (c - 1) % 3 + 1);
+        match i { 0 => if k == 1 { s.m(0, 1, d).unwrap() } else { 4 }, 1 => 3, _ => if k == 3 { s.m(1, 2, d).unwrap() } else { 4 } }
+    }).collect()).collect();
+    let rs: Vec<Vec<usize>> = (0..3).map(|i| (1..=3 * n).map(|c| ds.r(i, i + 1, c).unwrap()).collect()).collect();
+    build_sym_using_vs(ds, |i, c| Some(ms[i][c - 1] / rs[i][c - 1]))
+}
+
+/// 2-D generator outputs (all three geometries) up to `max` chambers whose branching numbers obey the crystallographic
+/// restriction, one per distinct orbifold symbol (the smallest): bases of prisms of every orbifold type
+pub fn prism_bases(max: usize) -> Vec<(String, PartialDSym)> {
+    let mut seen = std::collections::BTreeSet::new();
+    let mut out = vec![];
+    for s in generated_2d(max) {
+        let ok = (1..=s.size()).all(|d| (0..2).all(|i| matches!(s.v(i, i + 1, d), Some(1 | 2 | 3 | 4 | 6))));
+        if !ok { continue; }
+        let o = rust_dsymbols::delaney2d::orbifold_symbol(&s);
+        if seen.insert(o.clone()) { out.push((o, s)); }
+    }
+    out
+}
